@@ -118,3 +118,38 @@ func ZZ_Inbox() {
 		}
 	}
 }
+
+// ZZ_Inbox_Backlog: a backlog longer than messageBatchSize (4096) built up before the inbox is started (or while
+// the worker is busy): the worker must split it into batches and still hand every message to Invoke exactly once
+// and in order, and come to rest idle over an empty ring. One schedule (no concurrency is needed to split).
+func ZZ_Inbox_Backlog() {
+	size := []int{1, 1024, 4096}[zzrt.Choose(3)]
+	n := messageBatchSize + []int{1, 4}[zzrt.Choose(2)]
+	in := NewInbox(size)
+	rec := &zzInRec{}
+	early := zzrt.Choose(2) == 1
+	if early {
+		// started first, but the processer is slow: the first message keeps the worker busy while the rest piles up
+		in.Start(rec)
+	}
+	for i := 0; i < n; i++ {
+		in.Send(Envelope{Msg: zzInMsg{0, i, int64(i)}})
+	}
+	if !early {
+		in.Start(rec)
+	}
+	zzrt.Quiesce()
+	zzrt.Assert(len(rec.log) == n, "C01:not-exactly-once[backlog-longer-than-a-batch]")
+	for i, env := range rec.log {
+		m, ok := env.Msg.(zzInMsg)
+		if !ok || m.J != i {
+			zzrt.Fail("C01:message-skipped-or-reordered[backlog-longer-than-a-batch]")
+		}
+	}
+	zzrt.Assert(in.rb.Len() == 0, "C03:rests-with-non-empty-inbox")
+	zzrt.Assert(atomic.LoadInt32(&in.procStatus) == idle, "C03:does-not-rest-idle")
+	zzrt.Assert(!rec.overlap, "C02:Invoke-overlaps")
+	if rec.batches >= 2 {
+		zzrt.Reach("backlog-split-into-batches")
+	}
+}
